@@ -180,7 +180,11 @@ def ttl_cases():
                 [[b'rpush', b'ls', b'2', b'1'], [b'sort', b'ls', b'store', b'k']], [[b'rpush', b'ls', b'q'], [b'rpoplpush', b'ls', b'k']], [[b'rpush', b'ls', b'q'], [b'lmove', b'ls', b'k', b'left', b'left']],
                 [[b'dump', b'k']], [[b'expireat', b'k', b'2000000']], [[b'pexpireat', b'k', b'2000000000']], [[b'expireat', b'k', b'1']], [[b'smove', b'k', b'k3', b'a'], [b'ttl', b'k3']],
                 [[b'multi'], [b'persist', b'k'], [b'ttl', b'k'], [b'exec']], [[b'multi'], [b'select', b'5'], [b'set', b'k', b'v', b'ex', b'10'], [b'ttl', b'k'], [b'exec'], [b'ttl', b'k'], [b'select', b'0']],
-                [[b'swapdb', b'0', b'1'], [b'ttl', b'k'], [b'select', b'1'], [b'ttl', b'k'], [b'select', b'0']]]
+                [[b'swapdb', b'0', b'1'], [b'ttl', b'k'], [b'select', b'1'], [b'ttl', b'k'], [b'select', b'0']],
+                [[b'pfadd', b'k', b'x']], [[b'pfadd', b'src', b'q'], [b'pfmerge', b'k', b'src'], [b'pfcount', b'k']], [[b'pfmerge', b'k', b'nosuch']],
+                [[b'pfadd', b'src', b'q'], [b'pfmerge', b'src', b'k'], [b'ttl', b'src']], [[b'hincrbyfloat', b'k', b'n', b'1.5']], [[b'decrby', b'k', b'1']],
+                [[b'lpop', b'k']], [[b'sinterstore', b'k', b'k']], [[b'sunionstore', b'k', b'k']], [[b'zinterstore', b'k', b'1', b'k']], [[b'restore', b'k', b'0', b'x', b'replace']],
+                [[b'getrange', b'k', b'0', b'1']], [[b'zremrangebyrank', b'k', b'0', b'0']], [[b'zadd', b'k', b'xx', b'ch', b'7', b'a']]]
         for a in acts:
             yield pre + a + after
             # the same with the clock moved past the deadline before and after the action
